@@ -138,6 +138,7 @@ pub enum COp {
     Av10k,
     Av1m,
     Av100k,
+    Av300k,
     AsSmall,
     As50k,
     /// a snapshot above 1 MiB (several hundred pages; size-gated code paths)
@@ -167,6 +168,7 @@ impl COp {
             COp::AvAfterLockWait => "AddVersion(A, 20B) after the write lock was busy for 70 attempts",
             COp::Av1m => "AddVersion(A, 1MB)",
             COp::Av100k => "AddVersion(A, 100KB)",
+            COp::Av300k => "AddVersion(A, 300KB)",
             COp::AsSmall => "AddSnapshot(A, latest, 20B)",
             COp::As50k => "AddSnapshot(A, latest, 50KB)",
             COp::As2m => "AddSnapshot(A, latest, 1.2MB)",
@@ -177,7 +179,7 @@ impl COp {
         }
     }
     pub fn parse(s: &str) -> Option<COp> {
-        [COp::AvNewClient, COp::AvSmall, COp::Av10k, COp::Av1m, COp::Av100k, COp::AsSmall, COp::As50k, COp::As2m, COp::AvMax, COp::AsMax, COp::AsDeclined, COp::HoldConnection, COp::AvAfterLockWait].into_iter().find(|c| c.name() == s)
+        [COp::AvNewClient, COp::AvSmall, COp::Av10k, COp::Av1m, COp::Av100k, COp::Av300k, COp::AsSmall, COp::As50k, COp::As2m, COp::AvMax, COp::AsMax, COp::AsDeclined, COp::HoldConnection, COp::AvAfterLockWait].into_iter().find(|c| c.name() == s)
     }
     pub fn all() -> Vec<COp> {
         // (HoldConnection is added by `histories`, it is not a request)
@@ -234,6 +236,7 @@ pub fn record(hist: &[COp], seed: u64) -> Result<Recorded, String> {
             COp::Av10k => SymOp::AddVersion { c: 0, parent: latest_a, data: body(10_000, k as u8) },
             COp::Av1m => SymOp::AddVersion { c: 0, parent: latest_a, data: body(1_000_000, k as u8) },
             COp::Av100k => SymOp::AddVersion { c: 0, parent: latest_a, data: body(100_000, k as u8) },
+            COp::Av300k => SymOp::AddVersion { c: 0, parent: latest_a, data: body(300_000, k as u8) },
             COp::AsSmall => SymOp::AddSnapshot { c: 0, v: latest_a, data: body(20, 100 + k as u8) },
             COp::As50k => SymOp::AddSnapshot { c: 0, v: latest_a, data: body(50_000, 100 + k as u8) },
             COp::As2m => SymOp::AddSnapshot { c: 0, v: latest_a, data: body(1_200_000, 100 + k as u8) },
@@ -759,6 +762,9 @@ pub fn histories(quick: bool) -> Vec<Vec<COp>> {
             vec![COp::AvSmall, COp::AsSmall, COp::AvSmall, COp::As2m],
             // a request that had to wait for the write lock
             vec![COp::HoldConnection, COp::AvSmall, COp::AvAfterLockWait],
+            // a history segment of 300 KB on an existing chain (size thresholds on the write path;
+            // the thorough tier has 1 MB alone and as the second request)
+            vec![COp::AvSmall, COp::Av300k],
         ];
     }
     let all = COp::all();
